@@ -335,6 +335,22 @@ def k7_fragments(ctx, pid: str, which=("K7", "K8", "K9", "K10")):
             spec = spec_fn(I)
             out.append(("%s.fragment" % kid, raw.qualname, I.same_pieces(got, spec),
                         "%s must be %s: got %s" % (meth, show_pieces(spec), show_pieces(got))))
+            # the fragment is a linear slice and must keep saying so: nothing writes a topology into its annotations, nor
+            # pours another record's annotations (which may declare a circle) into them
+            claims = []
+            for e in o.path.effects:
+                if not (len(e) > 1 and isinstance(e[1], Term) and e[1].op == "annotations" and e[1].args
+                        and isinstance(e[1].args[0], Term) and e[1].args[0].op == "slice-of"):
+                    continue
+                if e[0] == "setitem" and e[2] == "topology" and not (isinstance(e[3], str) and e[3].lower() == "linear"):
+                    claims.append("[%r] = %r" % (e[2], e[3]))
+                if e[0] == "mutate" and e[2] in ("update", "__ior__"):
+                    for a in e[3]:
+                        if isinstance(a, dict) and not ("topology" in a and not (isinstance(a["topology"], str) and a["topology"].lower() == "linear")):
+                            continue
+                        claims.append("%s(%r)" % (e[2], a))
+            out.append(("%s.fragment-annotations" % kid, raw.qualname, not claims,
+                        "the fragment is a linear slice of the circle and must not be made to claim another topology: %s" % "; ".join(claims)))
             if want_source:
                 v = o.value
                 feats = v.added_features if isinstance(v, ARec) else []
